@@ -13,7 +13,8 @@ open TV.Race
 structure Inv (s : St) : Prop where
   handedWinner : ∀ i, task s i = .handed → s.winner = some i
   winnerHanded : ∀ i, s.winner = some i → task s i = .handed
-  claimedIff : s.claimed = true ↔ s.winner.isSome
+  claimedIff : s.claimed = true ↔ (s.winner.isSome ∨ s.aborted = true)
+  abortedClean : s.aborted = true → s.winner = none ∧ s.slot = none ∧ s.returned = none
   slotWinner : ∀ i, s.slot = some i → s.winner = some i ∧ s.returned = none
   retWinner : ∀ i, s.returned = some i → s.winner = some i
   authedRet : ∀ i ∈ s.authed, s.returned = some i
@@ -32,6 +33,7 @@ theorem inv_init (k : Nat) : Inv (init k) := by
     rcases task_init k i with h' | h' <;> rw [h'] at h <;> cases h
   · intro i h; simp [init] at h
   · simp [init]
+  · intro h; simp [init] at h
   · intro i h; simp [init] at h
   · intro i h; simp [init] at h
   · intro i h; simp [init] at h
@@ -147,6 +149,7 @@ theorem step_inv {s s' : St} {a : Step} (h : Inv s) (hs : step s a = some s') : 
           | some w =>
             exfalso; apply hcl
             exact h.claimedIff.mpr (by simp [hw])
+        have hna : s.aborted ≠ true := fun ha => hcl (h.claimedIff.mpr (Or.inr ha))
         constructor
         · intro j hj
           simp only [task] at hj ⊢; rw [taskL_set _ i j _ hne] at hj
@@ -159,6 +162,7 @@ theorem step_inv {s s' : St} {a : Step} (h : Inv s) (hs : step s a = some s') : 
           subst hj
           simp only [task]; rw [taskL_set _ i i _ hne]; simp
         · simp
+        · intro ha; exact absurd ha hna
         · intro j hj
           simp only [Option.some.injEq] at hj
           subst hj
@@ -179,7 +183,10 @@ theorem step_inv {s s' : St} {a : Step} (h : Inv s) (hs : step s a = some s') : 
     split at hs
     · rename_i i hsl hret
       cases hs
-      refine { h with slotWinner := ?_, retWinner := ?_, authedRet := ?_ }
+      refine { h with slotWinner := ?_, retWinner := ?_, authedRet := ?_, abortedClean := ?_ }
+      · intro ha
+        have := (h.abortedClean ha).2.1
+        rw [hsl] at this; cases this
       · intro j hj; cases hj
       · intro j hj
         simp only [Option.some.injEq] at hj
@@ -193,6 +200,58 @@ theorem step_inv {s s' : St} {a : Step} (h : Inv s) (hs : step s a = some s') : 
     simp only [step] at hs
     split at hs
     · cases hs; exact { h with }
+    · cases hs
+  | callerCancel =>
+    simp only [step] at hs
+    cases hs; exact { h with }
+  | mainAbort =>
+    simp only [step] at hs
+    split at hs
+    · rename_i hg
+      split at hs
+      · rename_i hcl
+        cases hs
+        have hnone : s.winner = none := by
+          cases hw : s.winner with
+          | none => rfl
+          | some w =>
+            have := h.claimedIff.mpr (Or.inl (by simp [hw]))
+            rw [hcl] at this; cases this
+        have hsl : s.slot = none := by
+          cases hw : s.slot with
+          | none => rfl
+          | some w =>
+            have := (h.slotWinner w hw).1
+            rw [hnone] at this; cases this
+        refine { h with claimedIff := ?_, abortedClean := ?_ }
+        · simp
+        · intro _; exact ⟨hnone, hsl, hg.2.1⟩
+      · rename_i hcl
+        split at hs
+        · rename_i i hsl
+          cases hs
+          have hw := (h.slotWinner i hsl).1
+          have hh := h.winnerHanded i hw
+          have hne : task s i ≠ .failed := by rw [hh]; decide
+          constructor
+          · intro j hj
+            simp only [task] at hj ⊢; rw [taskL_set _ i j _ hne] at hj
+            split at hj
+            · cases hj
+            · rename_i hij
+              have := h.handedWinner j hj
+              rw [hw] at this
+              exact absurd (Option.some.inj this) hij
+          · intro j hj; cases hj
+          · simpa using hcl
+          · intro _; exact ⟨rfl, rfl, hg.2.1⟩
+          · intro j hj; cases hj
+          · intro j hj
+            simp only at hj
+            rw [hg.2.1] at hj; cases hj
+          · exact h.authedRet
+          · exact h.primAuthed
+        · cases hs
     · cases hs
   | srvDone i =>
     simp only [step] at hs
@@ -266,7 +325,7 @@ theorem C09_gives_up_only_without_connection {s s' : St} (hs : step s .mainGiveU
   split at hs
   · rename_i hc
     intro i hi
-    have hall := hc.2.2.2
+    have hall := hc.2.2.2.2
     rw [List.all_eq_true] at hall
     have hm : s.tasks[i] ∈ s.tasks := List.getElem_mem hi
     have := hall _ hm
@@ -343,6 +402,55 @@ theorem C09_starts {k : Nat} {s : St} (h : Reachable k s) {c : Nat} (hr : s.retu
   simp only [run, step, hc1, hr1, hr, and_self, if_true, ha1, hna, List.nil_append, hprim1, hnone]
   exact ⟨_, rfl, rfl⟩
 
+/-! ### the caller gives up (its context is cancelled while the dials are running) -/
+
+/-- **Nothing is left behind when the caller cancels.** Once `ProbeAndDial` has returned the cancellation and every dial goroutine
+has finished, no attempt has a connection open - also not a dial whose handshake had completed before the cancellation and that
+got to its claim only afterwards, and not one that had claimed the race at the same moment. -/
+theorem C09_cancelled_leaves_nothing {k : Nat} {s : St} (h : Reachable k s) (ha : s.aborted = true) (hq : quiescent s) :
+    ∀ i, ¬ isOpen s i := by
+  have hi := reachable_inv h
+  rintro i (he | hh)
+  · exact (hq i).2 he
+  · have := hi.handedWinner i hh
+    rw [(hi.abortedClean ha).1] at this; cases this
+
+/-- and the accepting side commits to none of them: without a connection returned to the dialing side nothing passes authentication -/
+theorem C09_cancelled_nothing_authenticates {k : Nat} {s : St} (h : Reachable k s) (ha : s.aborted = true) :
+    s.authed = [] ∧ s.primary = none := by
+  have hi := reachable_inv h
+  have hau : s.authed = [] := by
+    cases hl : s.authed with
+    | nil => rfl
+    | cons x xs =>
+      have := hi.authedRet x (by rw [hl]; simp)
+      rw [(hi.abortedClean ha).2.2] at this; cases this
+  refine ⟨hau, ?_⟩
+  cases hp : s.primary with
+  | none => rfl
+  | some i =>
+    have := hi.primAuthed i hp
+    rw [hau] at this; cases this
+
+/-- the two outcomes exclude each other: a caller that was given a connection was not told "cancelled" -/
+theorem C09_cancelled_or_returned {k : Nat} {s : St} (h : Reachable k s) (ha : s.aborted = true) : s.returned = none :=
+  ((reachable_inv h).abortedClean ha).2.2
+
+/-- premises satisfiable: candidate 0 completes its handshake, the caller cancels and returns, then 0 gets to its claim (and closes
+itself); candidate 1 sees the cancellation in flight -/
+example : (run (init 2) [.clientDone 0, .callerCancel, .mainAbort, .claim 0, .cancelSeen 1]).map
+    (fun s => (s.aborted, s.returned, s.tasks)) = some (true, none, [.closedLoser, .cancelled]) := by decide
+
+/-- a dial that had claimed the race when the cancellation was taken: its connection is taken out of the channel and closed -/
+example : (run (init 1) [.clientDone 0, .claim 0, .callerCancel, .mainAbort]).map
+    (fun s => (s.aborted, s.returned, s.slot, s.tasks)) = some (true, none, none, [.closedLoser]) := by decide
+
+/-- the code as it was (the caller looked into the channel without taking the claim): a dial that got to its claim after the caller
+had returned the cancellation put its connection into a channel nobody reads - it stayed open at both ends -/
+theorem C09_cancelled_leaves_nothing_refuted_before_fix :
+    (runOld (init 1) [.clientDone 0, .callerCancel, .mainAbort, .claim 0]).map
+      (fun s => (s.aborted, s.returned, s.tasks)) = some (true, none, [.handed]) := by decide
+
 /-! ### the full-strength statements fail for the code as it was (kept as refuted witnesses) -/
 
 /-- before the repair (Proto/Race): a dial completing after the winner was taken found the slot free again -/
@@ -385,8 +493,18 @@ example : ∃ s, Reachable 3 s ∧ s.returned = some 0 ∧ quiescent s ∧ s.pri
     | 2 => decide
     | n + 3 => simp [task, taskL, demo, run, step, init], by decide⟩
 
-/-- the claim is one atomic compare-and-swap (regenerated from the source on this run): the model's `claim` step -/
-theorem C09_source_claim : TV.Gen.Shapes.probe_claim = ["claimed.CompareAndSwap(false, true)"] := by decide
+/-- the claim is one atomic compare-and-swap (regenerated from the source on this run): the model's `claim` step in the dial
+goroutine, and the caller's own claim when it gives up (`mainAbort`) -/
+theorem C09_source_claim : TV.Gen.Shapes.probe_claim =
+    ["claimed.CompareAndSwap(false, true)", "!claimed.CompareAndSwap(false, true)"] := by decide
+
+set_option maxRecDepth 16384 in
+/-- the caller's `select`, case by case: `mainRecv`, `mainAbort` (take the claim; if a dial holds it, its connection is in the
+channel or about to be - take it out and close it) and `mainGiveUp` (a claimed connection in the channel is taken first) -/
+theorem C09_source_select : TV.Gen.Shapes.probe_selects =
+    ["conn := <-resultCh => verifhook.PointS(\"ice.main.got_result\", conn.RemoteAddr().String()); return conn, nil",
+     "<-ctx.Done() => if !claimed.CompareAndSwap(false, true) { conn := <-resultCh conn.CloseWithError(0, \"probe_canceled\") }; return nil, ctx.Err()",
+     "<-allDone => select { case conn := <-resultCh: return conn, nil default: }; return nil, fmt.Errorf(\"all probes failed\")"] := by decide
 
 open TV.Gen.Shapes in
 /-- direct and relay (`turn:`) candidates are raced in two *sequential* phases of the same procedure: the relay phase is entered only
